@@ -22,6 +22,11 @@ RULE = ('seeded (poll, ping_rate, ping_timeout, close_timeout) drawn from '
         'forced Disconnected in [c, c+p] after an unanswered Close, every '
         'non-graceful end justified).  Non-trivial = Ready and >= 3 Polls; '
         'distinct = distinct (config, history shape) signatures')
+RULE += (' '
+         'Also: ping_timeout with ping_rate 0, close() repeated at every '
+         'event while closing, auto_pong on/off, byte-trickled frames, a '
+         'frame of exactly 65536 bytes arriving alone, wake-up latency '
+         'jitter.')
 SHRINK_LISTS = [('data',)]
 EXPECTED_PROBES = ['unresponsive_seen', 'close_timeout_fired', 'ping_rate_zero',
                    'late_pong', 'close_timeout_disabled', 'ping_lt_poll',
